@@ -100,7 +100,7 @@ def case_abs(case):
                          f"({passes[0]['x'].size} vs {int(mask.sum())})")
             xm, xM = x[mask].min(), x[mask].max()
             for key, ref in (("xmin", xm), ("xmax", xM)):
-                if abs(fp[key] - ref) > 4 * np.spacing(abs(ref)):
+                if not abs(fp[key] - ref) <= 4 * np.spacing(abs(ref)):
                     viol("xmin-xmax", f"{key}:{wit}", f"{key}={fp[key]!r}, "
                          f"extreme abscissa of the used points {ref!r}")
         else:
@@ -171,7 +171,7 @@ def case_rel(case):
                  f"mask is not [cp+a, cp+b] (cp={cp!r}, slack {slack:.2e})")
     xm, xM = x[rng].min(), x[rng].max()
     for key, ref in (("xmin", xm), ("xmax", xM)):
-        if abs(fp[key] - ref) > 4 * np.spacing(abs(ref)):
+        if not abs(fp[key] - ref) <= 4 * np.spacing(abs(ref)):
             viol("xmin-xmax", key, f"{key}={fp[key]!r}, extreme abscissa "
                  f"of the used points {ref!r}")
     return out, ("rel", len(passes))
@@ -242,7 +242,7 @@ def case_plateau(case):
                 viol("plateau-grid", wit + f":scan{i}", "scan pass does not "
                      "use [depth_i, upper bound]")
                 break
-        if abs(fp["xmin"] - x[mask].min()) > 4 * np.spacing(
+        if not abs(fp["xmin"] - x[mask].min()) <= 4 * np.spacing(
                 abs(x[mask].min())):
             viol("xmin-xmax", "plateau:xmin", f"{fp['xmin']!r} vs "
                  f"{x[mask].min()!r}")
